@@ -113,9 +113,10 @@ class DistributeMapper(IdentityMapper):
         from pymbolic.primitives import Sum
 
         newbase = self.rec(expr.base)
-        if isinstance(expr.base, Product):
+        if isinstance(newbase, Product):
+            # (a*b)**n -> a**n * b**n
             return self.rec(pymbolic.flattened_product([
-                child**expr.exponent for child in newbase
+                child**expr.exponent for child in newbase.children
                 ]))
 
         if isinstance(expr.exponent, int):
